@@ -47,22 +47,10 @@ SERVICES = ['tms', 'kml', 'wmts', 'wmtskvp', 'wmsc']
 _seq = [0]
 
 
-def url_for(service, coord):
-    x, y, z = coord
-    n = 1 << z
-    if service == 'tms':
-        return '/tms/1.0.0/lay/EPSG3857/%d/%d/%d.png' % (z - 1, x, y), ''
-    if service == 'kml':
-        return '/kml/lay/EPSG3857/%d/%d/%d.png' % (z, x, y), ''
-    if service == 'wmts':
-        return '/wmts/lay/g/%02d/%d/%d.png' % (z, x, n - 1 - y), ''
-    if service == 'wmtskvp':
-        return '/service', ('service=WMTS&request=GetTile&version=1.0.0&layer=lay&style=&tilematrixset=g&tilematrix=%02d'
-                            '&tilerow=%d&tilecol=%d&format=image/png' % (z, n - 1 - y, x))
-    size = 2 * U.H / n
-    return '/service', ('service=WMS&request=GetMap&version=1.1.1&layers=lay&styles=&srs=EPSG:3857&bbox=%r,%r,%r,%r'
-                        '&width=%d&height=%d&format=image/png&tiled=true' % (
-                            -U.H + x * size, -U.H + y * size, -U.H + (x + 1) * size, -U.H + (y + 1) * size, U.TS, U.TS))
+url_for = F.url_for
+
+
+OCEANS = [(7, 7, 7), (9, 9, 9)]
 
 
 def gen(t, tier):
@@ -73,24 +61,38 @@ def gen(t, tier):
         c = [t.choice(n), t.choice(n), z]
         if c not in coords:
             coords.append(c)
-    sc = {'service': t.pick(SERVICES), 'backend': t.weighted([('file', 3), ('sqlite', 2)]),
+    backend = t.weighted([('file', 3), ('sqlite', 2), ('file-link', 2)])
+    sc = {'service': t.pick(SERVICES), 'backend': backend,
           'meta_size': t.pick([[1, 1], [1, 1], [2, 2]]), 'refresh': t.pick([None, 30, 30, 3600]),
-          'fill': t.pick(['#ff0000', 'transparent']), 'coords': coords, 'ops': [], 'frac': t.pick([0.0, 0.4])}
+          'fill': t.pick(['#ff0000', 'transparent']), 'coords': coords, 'ops': [], 'frac': t.pick([0.0, 0.4]),
+          'ocean': backend == 'file-link' or bool(t.chance(0.15))}
+    if backend == 'file-link' and not any(U.is_ocean_tile(c) for c in coords):
+        # make sure at least one requested tile is a constant-colour one
+        for x in range(n):
+            if U.is_ocean_tile([x, 0, z]):
+                coords.append([x, 0, z])
+                break
     nops = t.randint(8, 20 if tier == 'quick' else 40)
     for _ in range(nops):
-        k = t.weighted([('get', 5), ('cond', 8), ('adv', 3), ('rewrite', 2 if sc['refresh'] else 0), ('up500', 2)])
+        k = t.weighted([('get', 5), ('cond', 8), ('adv', 3), ('rewrite', 2 if sc['refresh'] else 0), ('up500', 2),
+                        ('cond_refresh', 2 if sc['refresh'] else 0), ('ocean', 2 if sc['ocean'] else 0)])
         u = t.choice(len(coords))
         if k == 'get':
             sc['ops'].append(['get', u])
         elif k == 'cond':
-            if t.chance(0.55):
+            if t.chance(0.5):
                 sc['ops'].append(['cond', u, 'inm', t.pick(['current', 'current', 'previous', 'garbage', 'quoted'])])
             else:
-                sc['ops'].append(['cond', u, 'ims', t.pick(['before', 'equal', 'after', 'after1', 'malformed'])])
+                sc['ops'].append(['cond', u, 'ims', t.pick(['before', 'equal', 'after', 'after1', 'malformed', 'ancient',
+                                                            'previous', 'previous'])])
+        elif k == 'cond_refresh':
+            sc['ops'].append(['cond_refresh', u, t.pick(['inm', 'ims'])])
         elif k == 'adv':
             sc['ops'].append(['adv', t.pick([0.5, 1, 2, 10, 'boundary', 4000, 90000])])
         elif k == 'rewrite':
             sc['ops'].append(['rewrite', u])
+        elif k == 'ocean':
+            sc['ops'].append(['ocean', t.choice(2)])
         else:
             sc['ops'].append(['up500', bool(t.choice(2))])
     return sc
@@ -132,6 +134,8 @@ def _decode(body):
     px = img.tobytes()
     first = px[:4]
     if all(px[i:i + 4] == first for i in range(0, len(px), 4)):
+        if tuple(first[:3]) in OCEANS and first[3] == 255:
+            return 'ocean', tuple(first[:3])
         return 'fill', tuple(first)
     gens = set(px[i + 2] for i in range(0, len(px), 4))
     if len(gens) == 1:
@@ -150,6 +154,8 @@ def run(sc, tape):
     w = World(tape, with_sched=False, start_time=1.7e9 + sc['frac'])
     clock = w.clock
     http = F.SimHTTP(w)
+    if sc.get('ocean'):
+        http.ocean = OCEANS[0]
     w.extra_patches.append((H.HTTPClient, 'open', lambda self, url, data=None, method=None: http.open(self, url, data, method)))
 
     class SimDateTime(real_dt.datetime):
@@ -159,7 +165,7 @@ def run(sc, tape):
     w.extra_patches.append((times, 'datetime', types.SimpleNamespace(datetime=SimDateTime, timedelta=real_dt.timedelta,
                                                                      date=real_dt.date)))
     realdir = None
-    if sc['backend'] == 'file':
+    if sc['backend'] in ('file', 'file-link'):
         cache_conf = {'type': 'file', 'directory_layout': 'tc'}
     else:
         _seq[0] += 1
@@ -168,14 +174,19 @@ def run(sc, tape):
         cache_conf = {'type': 'sqlite', 'directory': realdir}
     conf = F.base_conf(cache_conf, meta_size=sc['meta_size'],
                        refresh_before={'seconds': sc['refresh']} if sc['refresh'] else None,
-                       on_error_color=sc['fill'])
-    urls = [url_for(sc['service'], c) for c in sc['coords']]
-    last = {}            # url index -> last non-creating 200 response (gen, etag, lm, body)
-    prev_etag = {}       # url index -> an ETag of an older generation
+                       on_error_color=sc['fill'], link=sc['backend'] == 'file-link')
+    coords = [tuple(c) for c in sc['coords']]
+    urls = [url_for(sc['service'], c) for c in coords]
+    last = {}            # url index -> last non-creating 200 response of the current epoch
+    prev = {}            # url index -> validators of an older epoch: {'etag', 'lm'}
     judged = [0]
     fills = [0]
     probes = {}
     v = None
+
+    def epoch(u):
+        """number of successful upstream fetches that covered this URL's tile so far = how often it was (re)written"""
+        return sum(1 for e in http.log if e['ok'] and e.get('bbox') and U.covers(e['bbox'], coords[u]))
 
     def get(u, headers=None):
         n0 = len(http.log)
@@ -184,7 +195,7 @@ def run(sc, tape):
         return st, hd, body, calls
 
     def observe(u, st, hd, body, calls, what):
-        """checks on any unconditional 200 response; returns decoded kind"""
+        """checks on any unconditional response; returns (kind, content id)"""
         if st != 200:
             raise Bad('unexpected-status', '%s: status %d, body %r' % (what, st, body[:200]))
         kind, val = _decode(body)
@@ -197,33 +208,57 @@ def run(sc, tape):
             if 'no-store' not in cc:
                 raise Bad('fill-image-cacheable', '%s: uncached fill image sent with Cache-Control %r, ETag %r, Last-Modified %r '
                           'instead of no-store directives' % (what, cc, hd.get('etag'), hd.get('last-modified')))
+            if hd.get('etag') and http.fail_code:
+                # nothing is stored for this address in this state: a 304 can never be justified
+                st2, hd2, body2, calls2 = get(u, {'If-None-Match': hd['etag']})
+                if st2 == 304:
+                    raise Bad('fill-image-304', '%s: the uncached fill image came with ETag %r and a request carrying it was '
+                              'answered 304 although no tile is stored' % (what, hd['etag']))
             return kind, val
-        if kind != 'tile':
+        if kind not in ('tile', 'ocean'):
             raise Bad('undecodable-body', '%s: body is not a tile image' % what)
-        creating = bool(calls)
+        if kind == 'ocean' and not (sc.get('ocean') and U.is_ocean_tile(coords[u])):
+            raise Bad('undecodable-body', '%s: constant-colour body for a tile that is not an ocean tile' % what)
+        ep = epoch(u)
+        creating = any(e['ok'] for e in calls)
         if not creating:
             l = last.get(u)
-            if l is not None and l['gen'] == val:
+            if l is not None and l['epoch'] == ep:
                 if (l['etag'], l['lm'], l['body']) != (hd.get('etag'), hd.get('last-modified'), body):
-                    raise Bad('validators-changed', '%s: the tile (generation %d) was not rewritten but validators/body '
+                    raise Bad('validators-changed', '%s: the tile was not rewritten (no upstream fetch since) but validators/body '
                               'changed: ETag %r -> %r, Last-Modified %r -> %r, body equal: %s' % (
-                                  what, val, l['etag'], hd.get('etag'), l['lm'], hd.get('last-modified'), l['body'] == body))
-            if l is not None and l['gen'] != val and l['etag'] is not None:
-                prev_etag[u] = l['etag']
-            last[u] = {'gen': val, 'etag': hd.get('etag'), 'lm': hd.get('last-modified'), 'body': body}
+                                  what, l['etag'], hd.get('etag'), l['lm'], hd.get('last-modified'), l['body'] == body))
+            if l is not None and l['epoch'] != ep and l['etag'] is not None:
+                prev[u] = {'etag': l['etag'], 'lm': l['lm']}
+            last[u] = {'epoch': ep, 'etag': hd.get('etag'), 'lm': hd.get('last-modified'), 'body': body, 'val': val}
         return kind, val
+
+    def probe(u, what):
+        """current validators of a cached tile (None if a fill image / nothing cacheable is being served)"""
+        for _ in range(2):
+            st, hd, body, calls = get(u)
+            kind, val = observe(u, st, hd, body, calls, what + ' (probe)')
+            if kind == 'fill':
+                return None
+            if not any(e['ok'] for e in calls):
+                if hd.get('etag') is None or hd.get('last-modified') is None:
+                    raise Bad('missing-validators', '%s: cached tile served without ETag/Last-Modified: %r' % (what, hd))
+                return {'etag': hd.get('etag'), 'lm': hd.get('last-modified'), 'val': val, 'epoch': epoch(u), 'body': body}
+        return None
 
     try:
         with w:
             app, pc = F.make_app(conf)
             for i, op in enumerate(sc['ops']):
                 what = 'op#%d %r on %s' % (i, op, urls[op[1]][0] + ('?' + urls[op[1]][1][:40] if urls[op[1]][1] else '')
-                                            if op[0] in ('get', 'cond', 'rewrite') else '')
+                                            if op[0] in ('get', 'cond', 'rewrite', 'cond_refresh') else '')
                 k = op[0]
                 if k == 'adv':
                     clock.now = float(int(clock.now) + 1) if op[1] == 'boundary' else clock.now + op[1]
                 elif k == 'up500':
                     http.fail_code = 500 if op[1] else None
+                elif k == 'ocean':
+                    http.ocean = OCEANS[op[1]]
                 elif k == 'get':
                     st, hd, body, calls = get(op[1])
                     observe(op[1], st, hd, body, calls, what)
@@ -231,25 +266,30 @@ def run(sc, tape):
                     # through the real expiry path: let the tile age beyond refresh_before, then GET it
                     clock.now += sc['refresh'] + 2
                     st, hd, body, calls = get(op[1])
-                    kind, val = observe(op[1], st, hd, body, calls, what)
-                    if kind == 'tile' and not calls and op[1] in last and http.fail_code is None:
-                        probes['rewrite_without_fetch'] = probes.get('rewrite_without_fetch', 0) + 1
-                elif k == 'cond':
+                    observe(op[1], st, hd, body, calls, what)
+                elif k == 'cond_refresh':
+                    # a conditional request that itself triggers the refresh of an expired tile
                     u = op[1]
-                    # learn the current validators with an unconditional GET (twice if the first one created the tile)
-                    cur = None
-                    for _ in range(2):
-                        st, hd, body, calls = get(u)
-                        kind, val = observe(u, st, hd, body, calls, what + ' (probe)')
-                        if kind == 'tile' and not calls:
-                            cur = {'etag': hd.get('etag'), 'lm': hd.get('last-modified'), 'gen': val}
-                            break
-                        if kind == 'fill':
-                            break
+                    cur = probe(u, what)
                     if cur is None:
                         continue
-                    if cur['etag'] is None or cur['lm'] is None:
-                        raise Bad('missing-validators', '%s: cached tile served without ETag/Last-Modified: %r' % (what, hd))
+                    clock.now += sc['refresh'] + 2
+                    headers = {'If-None-Match': cur['etag']} if op[2] == 'inm' else {'If-Modified-Since': cur['lm']}
+                    st2, hd2, body2, calls2 = get(u, headers)
+                    st3, hd3, body3, calls3 = get(u)
+                    kind3, val3 = observe(u, st3, hd3, body3, calls3, what + ' (after)')
+                    if kind3 == 'fill':
+                        continue
+                    judged[0] += 1
+                    if st2 == 304 and body3 != cur['body']:
+                        raise Bad('stale-304-on-rewrite', '%s: the request carried the validators of the old copy (%r), the tile '
+                                  'was rewritten while serving it (upstream fetches: %d) and now has a different body, but the '
+                                  'answer was 304 Not Modified' % (what, headers, len(calls2)))
+                elif k == 'cond':
+                    u = op[1]
+                    cur = probe(u, what)
+                    if cur is None:
+                        continue
                     lm_ts = parse_httpdate(cur['lm'])
                     headers = {}
                     expect304 = None
@@ -258,9 +298,9 @@ def run(sc, tape):
                             headers['If-None-Match'] = cur['etag']
                             expect304 = True
                         elif op[3] == 'previous':
-                            if u not in prev_etag or prev_etag[u] == cur['etag']:
+                            if u not in prev or prev[u]['etag'] == cur['etag']:
                                 continue
-                            headers['If-None-Match'] = prev_etag[u]
+                            headers['If-None-Match'] = prev[u]['etag']
                             expect304 = False
                         elif op[3] == 'quoted':
                             headers['If-None-Match'] = '"x' + cur['etag'] + '"'
@@ -281,12 +321,25 @@ def run(sc, tape):
                         elif op[3] == 'after1':
                             headers['If-Modified-Since'] = format_httpdate(lm_ts + 1)
                             expect304 = None
+                        elif op[3] == 'ancient':
+                            headers['If-Modified-Since'] = 'Wed, 01 Jan 1969 00:00:00 GMT'
+                            expect304 = False
+                        elif op[3] == 'previous':
+                            # the date of the client's older copy; the tile has been rewritten since
+                            if u not in prev or prev[u]['lm'] is None:
+                                continue
+                            headers['If-Modified-Since'] = prev[u]['lm']
+                            plm = parse_httpdate(prev[u]['lm'])
+                            expect304 = False if plm is not None and plm < lm_ts else None
+                            if expect304 is None and plm is not None and plm > lm_ts:
+                                raise Bad('last-modified-went-backwards', '%s: the tile was rewritten after a copy with Last-Modified '
+                                          '%r was served, but now reports the older Last-Modified %r' % (what, prev[u]['lm'], cur['lm']))
                         else:
                             headers['If-Modified-Since'] = 'yesterday at noon'
                             expect304 = False
                     st, hd2, body2, calls2 = get(u, headers)
                     if calls2:
-                        continue        # the tile expired and was rewritten by this very request
+                        continue        # the tile expired and was rewritten by this very request (see cond_refresh)
                     judged[0] += 1
                     if st == 304:
                         if expect304 is False:
@@ -298,10 +351,9 @@ def run(sc, tape):
                     elif st == 200:
                         if expect304 is True:
                             raise Bad('missing-304', '%s: request with the current ETag %r was answered 200' % (what, cur['etag']))
-                        kind2, val2 = _decode(body2)
-                        if kind2 != 'tile' or val2 != cur['gen'] or hd2.get('etag') != cur['etag']:
-                            raise Bad('validators-changed', '%s: conditional 200 differs from the probe: gen %r vs %r, ETag %r vs %r' % (
-                                what, val2, cur['gen'], hd2.get('etag'), cur['etag']))
+                        if body2 != cur['body'] or hd2.get('etag') != cur['etag']:
+                            raise Bad('validators-changed', '%s: conditional 200 differs from the probe: body equal %s, ETag %r vs %r' % (
+                                what, body2 == cur['body'], hd2.get('etag'), cur['etag']))
                     else:
                         raise Bad('unexpected-status', '%s: status %d' % (what, st))
                 clock.now += 0.011
@@ -323,7 +375,7 @@ def run(sc, tape):
     nfail = sum(1 for e in http.log if e['ok'] is False)
     if nfail:
         faults['upstream_http_500'] = nfail
-    return {'violation': v, 'digest': C.digest_of(sc['service'], sc['backend'], sc['meta_size'], sc['refresh'], sc['ops'], sc['coords'], [(e['gen'], e['ok'], e['url']) for e in http.log], w.fs.op_count, round(clock.now, 6)),
+    return {'violation': v, 'digest': C.digest_of(sc['service'], sc['backend'], sc['meta_size'], sc['refresh'], sc['ops'], sc['coords'], sc.get('ocean'), [(e['gen'], e['ok'], e['url']) for e in http.log], w.fs.op_count, round(clock.now, 6)),
             'nontrivial': judged[0] > 0 or fills[0] > 0, 'steps': len(sc['ops']), 'sim_time': clock.now - 1.7e9,
             'faults': faults, 'probes': probes,
             'sample': {'deployment': name, 'ops': sc['ops'][:14], 'upstream_calls': len(http.log)}}
